@@ -41,9 +41,10 @@ type Step struct {
 	Site    string `json:"site,omitempty"`
 	M       int    `json:"m,omitempty"`
 	ID      string `json:"id,omitempty"`
+	Out     string `json:"out,omitempty"` // cbret: outcome of the callback handler (ok | err:7 | err:plain | err:baddata | badresult | panic)
 	Items   []Item `json:"items,omitempty"`
 	Arr     bool   `json:"arr,omitempty"`
-	CtxKind string `json:"ctxkind,omitempty"` // canceled | deadline
+	CtxKind string `json:"ctxkind,omitempty"` // "" (cancel) | deadline | cancelcause | deadlinecause | childofcause
 	Soft    bool   `json:"soft,omitempty"`
 	N       int    `json:"n,omitempty"`
 }
@@ -80,6 +81,7 @@ type runner struct {
 	nrec    int
 	recs    [][]byte
 	cbGate  map[string][]chan struct{} // handlers currently blocked, per callback id
+	cbOut   map[string]string          // what the next handler released for a callback id returns
 	closed  bool
 	closeCh chan struct{}
 	stats   map[string]int
@@ -131,6 +133,8 @@ func rspItem(rsp *jrpc2.Response) map[string]any {
 	return it
 }
 
+type ctxKey struct{}
+
 func (r *runner) startOp(st Step) {
 	r.nops++
 	op := st.Op
@@ -144,11 +148,26 @@ func (r *runner) startOp(st Step) {
 	}
 	var ctx context.Context
 	var cancel context.CancelFunc
-	if st.CtxKind == "deadline" {
+	// The kinds of context an operation may be given.  Whatever cause a context carries (context.WithCancelCause and
+	// friends), the operation reports the context's own error: context.Canceled or context.DeadlineExceeded.
+	cause := errors.New("harness: private cause of op " + op)
+	switch st.CtxKind {
+	case "deadline":
 		d := time.Duration(r.nops) * time.Hour
 		ctx, cancel = context.WithTimeout(context.Background(), d)
 		r.opDl[op] = time.Now().Add(d)
-	} else {
+	case "deadlinecause":
+		d := time.Duration(r.nops) * time.Hour
+		ctx, cancel = context.WithTimeoutCause(context.Background(), d, cause)
+		r.opDl[op] = time.Now().Add(d)
+	case "cancelcause":
+		c2, cc := context.WithCancelCause(context.Background())
+		ctx, cancel = c2, func() { cc(cause) }
+	case "childofcause": // a plain child of a context that is cancelled with a cause
+		c2, cc := context.WithCancelCause(context.Background())
+		c3, c3cancel := context.WithCancel(context.WithValue(c2, ctxKey{}, op))
+		ctx, cancel = c3, func() { cc(cause); _ = c3cancel }
+	default:
 		ctx, cancel = context.WithCancel(context.Background())
 	}
 	r.opCtx[op] = cancel
@@ -258,6 +277,17 @@ func (r *runner) peer(st Step) {
 			parts = append(parts, fmt.Sprintf(`{"jsonrpc":"2.0","method":"sn","params":{"tag":%q}}`, tag))
 		case "call":
 			parts = append(parts, fmt.Sprintf(`{"jsonrpc":"2.0","id":%s,"method":"sc","params":{"tag":%q}}`, id, tag))
+		case "badcall": // request-shaped (method and id) but failing validation: still a request, never a reply
+			switch (r.nrec + j) % 4 {
+			case 0:
+				parts = append(parts, fmt.Sprintf(`{"jsonrpc":"1.0","id":%s,"method":"sc","params":{"tag":%q}}`, id, tag))
+			case 1:
+				parts = append(parts, fmt.Sprintf(`{"id":%s,"method":"sc","params":{"tag":%q}}`, id, tag))
+			case 2:
+				parts = append(parts, fmt.Sprintf(`{"jsonrpc":"2.0","id":%s,"method":"sc","params":{"tag":%q},"extra":1}`, id, tag))
+			default:
+				parts = append(parts, fmt.Sprintf(`{"jsonrpc":"2.0","id":%s,"method":"sc","params":7}`, id))
+			}
 		}
 		abs = append(abs, a)
 	}
@@ -302,6 +332,8 @@ func (r *runner) doStep(st Step) {
 		}
 	case "recverr":
 		r.ch.PushErr(nil, vh.ErrInjected, nil)
+	case "recvclosing": // Recv fails with a closing-class error although nobody closed this channel
+		r.ch.PushErr(nil, vh.ErrClosingInjected, nil)
 	case "sendfail":
 		r.rec.Log("SendFailArmed")
 		r.ch.FailSends()
@@ -322,6 +354,9 @@ func (r *runner) doStep(st Step) {
 		r.doClose()
 	case "cbret":
 		r.mu.Lock()
+		if st.Out != "" {
+			r.cbOut[st.ID] = st.Out
+		}
 		if gs := r.cbGate[st.ID]; len(gs) > 0 {
 			close(gs[0])
 			r.cbGate[st.ID] = gs[1:]
@@ -432,7 +467,7 @@ func Run(t *testing.T, sc *Scenario, emit func(evs []vh.Event, stats map[string]
 		s.Free = sc.Opts.Free
 		s.Pass["cli.close.lock"] = true
 		r := &runner{t: t, sc: sc, rec: rec, sched: s, stats: stats, opGid: map[string]int64{}, opCtx: map[string]context.CancelFunc{},
-			opDl: map[string]time.Time{}, cbGate: map[string][]chan struct{}{}, closeCh: make(chan struct{})}
+			opDl: map[string]time.Time{}, cbGate: map[string][]chan struct{}{}, cbOut: map[string]string{}, closeCh: make(chan struct{})}
 		jrpc2.VerifInstall(s.Point, nil)
 		defer jrpc2.VerifInstall(nil, nil)
 		r.ch = vh.NewVChan("c1", rec, sc.Opts.RecvUnblocks)
@@ -456,6 +491,21 @@ func Run(t *testing.T, sc *Scenario, emit func(evs []vh.Event, stats map[string]
 				rec.Log("CbStart", "id", key)
 				<-g
 				rec.Log("CbExit", "id", key)
+				r.mu.Lock()
+				out := r.cbOut[id]
+				r.mu.Unlock()
+				switch out { // whatever the handler returns, the client owes the server one complete reply
+				case "err:7":
+					return nil, jrpc2.Errorf(7, "cb-%s failed", id)
+				case "err:plain":
+					return nil, errors.New("cb-" + id + " plain failure")
+				case "err:baddata":
+					return nil, &jrpc2.Error{Code: 7, Message: "cb-" + id + " failed", Data: json.RawMessage(`{"bad":`)}
+				case "badresult":
+					return func() {}, nil
+				case "panic":
+					panic("cb-" + id + " panics")
+				}
 				return "cb-" + id, nil
 			}
 		}
